@@ -144,23 +144,26 @@ func (w *World) CheckPaging(k Kons, s search.SortType, limit int, full []blob.Re
 			first = r.Blobs
 		}
 		if !refsEqual(r.Blobs, want) {
-			// classification of the mismatch
-			if page > 0 && refsEqual(r.Blobs, first) && pos > 0 {
-				// the token was not honoured at all: page 1 again
+			// classification of the mismatch: first the two token-encoding
+			// defects (decided by the sort time of the item the token was made
+			// from), then the generic classes
+			if page > 0 && pos > 0 {
 				if last, ok := w.pnByRef(full[pos-1]); ok {
 					lt := sortTime(last, effSort)
 					if !unixNanoRepresentable(lt) {
-						return out, &Failure{"C09|paging|continue-token|time-outside-unixnano-range-token-ignored",
-							fmt.Sprintf("constraint %s sort %s limit %d: page %d ended at %s whose sort time %s is outside the UnixNano range; token %q was not honoured: next page is page 1 again %s instead of %s; full list %s",
+						return out, &Failure{"C09|paging|continue-token|sort-time-outside-unixnano-range",
+							fmt.Sprintf("constraint %s sort %s limit %d: page %d ended at %s whose sort time %s is outside the range of time.UnixNano (1678..2262); its token %q carries a wrapped-around value, so the next page is %s instead of %s; full list %s",
 								k.Name, sn, limit, page, last.Name, lt.Format(time.RFC3339Nano), tok, w.names(r.Blobs), w.names(want), w.names(full))}
 					}
-					if lt.UnixNano() < 0 && strings.HasPrefix(tok, "pn:-") {
+					if lt.UnixNano() < 0 && strings.HasPrefix(tok, "pn:-") && refsEqual(r.Blobs, first) {
 						return out, &Failure{"C09|paging|continue-token|pre1970-token-ignored-repeats-first-page",
-							fmt.Sprintf("constraint %s sort %s limit %d: page %d ended at %s whose sort time %s is before 1970; its token %q (negative UnixNano) is rejected by parsePermanodeContinueToken (ParseUint) and ignored: next page is page 1 again %s instead of %s, paging never terminates; full list %s",
+							fmt.Sprintf("constraint %s sort %s limit %d: page %d ended at %s whose sort time %s is before 1970; its token %q (negative UnixNano) is rejected by parsePermanodeContinueToken (ParseUint) and ignored: the next page is page 1 again %s instead of %s, and paging never terminates; full list %s",
 								k.Name, sn, limit, page, last.Name, lt.Format(time.RFC3339Nano), tok, w.names(r.Blobs), w.names(want), w.names(full))}
 					}
 				}
-				return out, fail("token-ignored", "page %d (continue=%q) is page 1 again: got %s want %s", page+1, tok, w.names(r.Blobs), w.names(want))
+				if refsEqual(r.Blobs, first) {
+					return out, fail("token-ignored", "page %d (continue=%q) is page 1 again: got %s want %s", page+1, tok, w.names(r.Blobs), w.names(want))
+				}
 			}
 			class := "mismatch"
 			seenBefore, inRest, beyond := false, true, false
